@@ -710,7 +710,7 @@ def c10_lazyseq(ctx):
 
 SEQ_ALLOWED_ITER = {'map', 'filter', 'flat_map', 'enumerate', 'find', 'find_map', 'reduce', 'count', 'next', 'into_iter', 'collect',
                     'filter_map', 'flatten', 'inspect', 'for_each', 'by_ref', 'position', 'any', 'all', 'try_fold', 'try_for_each',
-                    'map_while', 'take_while', 'skip_while', 'scan', 'peekable', 'fuse', 'extend'}
+                    'peekable', 'fuse', 'extend'}
 
 
 @rule('C09-SEQSHAPE', 'sequential kernels: in-order lazy/left-fold std adaptors rooted at into_seq_iter, closures in declaration order, no chunk size')
